@@ -35,7 +35,7 @@ ASSUMPTIONS = ['in-process kill: after the kill instant no task of the victim ha
                '(what the OS does for SIGKILL); power loss is not modelled',
                'real-kill mode: single victim, kill instant derived from the seed (seam step or progress-handler tick)']
 PROBES = ('kill_mid_file_write', 'kill_torn_chunk', 'kill_in_txn', 'kill_between_commit_and_unlink', 'realkill', 'kill_inside_first_open',
-          'debris_unknown_file', 'bulk_partial')
+          'debris_unknown_file', 'bulk_partial', 'keynamed_refusal')
 TECHNIQUE = 'deterministic simulation with crash injection: kill point enumerated over all seam events of sampled workloads; post-crash state checked by linearizability with the interrupted operation pending'
 LEVEL_TEXT = ('fault enumeration: workloads are sampled by seed, but within a workload every kill point at seam granularity is run '
               '(thorough tier), so for that workload the crash-point quantifier is decided completely at that granularity; the '
@@ -77,6 +77,12 @@ def gen_case(seed, tier):
         if target == 'cache':
             cfg['settings']['eviction_policy'] = rng.choice(('least-recently-stored', 'least-recently-used', 'none'))
             cfg['settings']['statistics'] = rng.choice((0, 1))
+            if rng.random() < 0.15:
+                # a deployment whose Disk subclass names each value file after its key
+                cfg['disk'] = 'keynamed'
+                # (a refusal inside a transaction block would have to be modelled per statement: the blocks are left to the stock Disk)
+                for name in progs:
+                    progs[name] = [op for op in progs[name] if op.get('op') != 'txn'] or [{'op': 'set', 'k': 'a', 'v': c05.uniq_value(rng, 9, 0, big_n), 'retry': True}]
     elif scen == 'deque':
         cfg['target'] = 'deque'
         cfg['maxlen'] = rng.choice((None, None, 2, 3))
@@ -177,7 +183,7 @@ def post_mortem(world, case, out, violations, probes):
     dc = world.dc
     cfg = case['cfg']
     path = world.path('c')
-    fresh = dc.Cache(path, timeout=0.05)
+    fresh = dc.Cache(path, timeout=0.05, **({'disk': conc.keynamed_disk(dc)} if cfg.get('disk') == 'keynamed' else {}))
     first = check_messages(fresh)
     out['check1'] = first
     bad = [m for m in first if not (m.startswith('unknown file') or m.startswith('empty directory'))]
@@ -285,12 +291,19 @@ def run_lin(case):
     for name, msg in conc.unexpected_exceptions(out):
         violations.append({'rule': 'C07/unexpected-exception', 'sig': msg.split(':')[0], 'detail': '%s: %s' % (name, msg)})
     hist = out['history']
+    refused = []
+    if case['cfg'].get('disk') == 'keynamed':
+        # value files named after the key: a name that is taken (the key's present value, what a dead writer left) is never
+        # written over - the call fails with FileExistsError before it has changed anything
+        refused = [h for h in hist if h['res'] and h['res'][0] == 'exc' and h['res'][1] == 'FileExistsError']
+        if refused:
+            probes['keynamed_refusal'] = 1
     for h in hist:
         r = h['res']
-        if r and r[0] == 'exc' and r[1] not in ('KeyError', 'TypeError'):
+        if r and r[0] == 'exc' and r[1] not in ('KeyError', 'TypeError') and h not in refused:
             violations.append({'rule': 'C07/unexpected-exception', 'sig': r[1],
                                'detail': '%s op %s -> %s' % (h['task'], json.dumps(h['op'])[:150], r)})
-    ops = list(hist)
+    ops = [h for h in hist if h not in refused]
     lin.mark_tolerated_misses(ops, miss=kvmodel.is_miss)
     if target_kind == 'index':
         for h in ops:
